@@ -318,7 +318,7 @@ def run_case(case):
                     if cps_after != exp_cps:
                         viol.append(V('checkpoint-presence', 'checkpoint-presence:%s:%s' % (kind, 'missing' if persist else 'unexpected'),
                                       '%s: persister holds %s, expected %s' % (ctx, sorted(cps_after), sorted(exp_cps))))
-                    if persist:
+                    if persist and (repr(proc.pid), None) in cps_after:
                         # the checkpoint is the freshly created process (taken before it ran)
                         b = persister.load_checkpoint(proc.pid, None)
                         st = b['_state']['!!meta']['class_name'] if '_state' in b else '?'
